@@ -158,7 +158,7 @@ func c03Retry(e *Env, s *Sched) {
 			SkipEdge: doneNil,
 			Bad: func(in ssa.Instruction) bool {
 				c, ok := in.(*ssa.Call)
-				return ok && c.Call.StaticCallee() != nil && e.Reaches(c.Call.StaticCallee(), func(x *ssa.Function) bool { return x == s.Execute })
+				return ok && c.Call.StaticCallee() != nil && e.ReachesRepo(c.Call.StaticCallee(), func(x *ssa.Function) bool { return x == s.Execute })
 			}})
 		facts = nil
 		if bad2 != nil {
@@ -167,6 +167,26 @@ func c03Retry(e *Env, s *Sched) {
 		r.Check(bad2 == nil, "worker: after status:=None the exec loop is not re-entered", e.InstrPos(rs.Site),
 			"after handing the node back (status not-started) the same worker can loop and execute the step again while the scheduling loop launches a second worker for it", facts...)
 	}
+}
+
+// doneNilEdge: the CFG edge is taken only when the worker's `done` channel is
+// nil. Every shipped caller passes a made channel (C03.done-nonnil).
+func doneNilEdge(e *Env, from *ssa.BasicBlock, idx int) bool {
+	i, ok := from.Instrs[len(from.Instrs)-1].(*ssa.If)
+	if !ok {
+		return false
+	}
+	alts := e.Facts(from.Parent()).Alternatives(ir.Lit{Cond: i.Cond, Pol: idx == 0, If: i})
+	if len(alts) == 0 {
+		return false
+	}
+	for _, a := range alts {
+		l := ir.Normalize(a)
+		if !(l.Kind == "cmp" && l.Op == token.EQL && ir.IsNilConst(l.Y) && isChanNamed(ir.Resolve(l.X), "done")) {
+			return false
+		}
+	}
+	return true
 }
 
 func isChanNamed(v ssa.Value, name string) bool {
